@@ -171,7 +171,7 @@ func (g *goCompiler) expr(x Expr) string {
 				return fmt.Sprintf("interface{}(%s).(%s)", g.expr(n.Args[0]), goTypeName(s.V, g.pkg))
 			}
 			return g.bad("unbox needs a literal type")
-		case "allocated", "base", "off", "embed", "pre":
+		case "allocated", "allocatedNow", "closed", "base", "off", "embed", "pre":
 			return g.bad("%s() is not executable", n.Fun)
 		}
 		if _, ok := convNames[n.Fun]; ok {
